@@ -168,6 +168,13 @@ def run(F, R, tier):
     r5 = R.rule("C02-R5", "T6+T4", "unit predicates: expiry ≥ bound or absent; issuance ≤ bound; subject-holder table; status table; revocation bitmap membership; credential structure")
     _predicates(F, r5)
 
+    # ------------------------------------------------------------------ R6 the checked credential is the lossless image of the verified claims
+    r6 = R.rule("C02-R6", "T5", "the Credential whose dates/subject/status are checked is rebuilt from the verified claims without dropping a checked member: "
+                "C07-R2 (field coverage), C07-R3 (check_consistency rejects a vc member without its registered claim) and C07-R4 (dates through from_unix) hold")
+    L.depends_on(r6, F, tier, ["C07-R2", "C07-R3", "C07-R4"], "validate_decoded_credential sees every claim of the verified token")
+    r6.floor(3)
+
+
 
 def _parse_jwk(F, r3):
     fn = V + "::parse_jwk"
@@ -570,3 +577,4 @@ def _predicates(F, r5):
                     r5.site("check_structure: each subject with no id and no properties → InvalidSubject", node["sp"])
         r5.require(okl, (fn, "empty-subject"), "the per-subject emptiness check (id.is_none() && properties.is_empty() → InvalidSubject over all subjects) was not found")
     r5.floor(15)
+
